@@ -25,6 +25,7 @@ import (
 
 	"verifharness/core"
 	"verifharness/netsim"
+	"verifharness/protorig"
 )
 
 func init() {
@@ -150,28 +151,6 @@ func splitScript(points []int) netsim.ChunkFunc {
 			}
 		}
 		return 1 << 30
-	}
-}
-
-func waitUntil(cond func() bool, progress func() int64, quiet time.Duration, hard time.Duration) (ok bool, frozen bool) {
-	start := time.Now()
-	last := progress()
-	lastChange := time.Now()
-	for {
-		if cond() {
-			return true, false
-		}
-		time.Sleep(2 * time.Millisecond)
-		if p := progress(); p != last {
-			last = p
-			lastChange = time.Now()
-		}
-		if time.Since(lastChange) > quiet {
-			return false, true
-		}
-		if time.Since(start) > hard {
-			return false, false
-		}
 	}
 }
 
@@ -435,10 +414,12 @@ func oneRun(c *core.Ctx, idx int, r *core.Rand, sigs map[uint64]struct{}, splitP
 	if os.Getenv("VERIF_DEBUG") != "" {
 		fmt.Fprintf(os.Stderr, "  senders done\n")
 	}
-	ok, frozen := waitUntil(func() bool {
+	ok, frozen := protorig.WaitUntil(func() bool {
 		return received.Load() >= expected || len(A.errors())+len(B.errors()) > 0
 	},
-		func() int64 { return received.Load() }, 5*time.Second, 60*time.Second)
+		func() int64 {
+			return received.Load()*1000003 + int64(ca.ReadCount()+cb.ReadCount()+ca.Written()+cb.Written())
+		}, 30*time.Second, 300*time.Second)
 	if os.Getenv("VERIF_DEBUG") != "" {
 		fmt.Fprintf(os.Stderr, "  received ok=%v\n", ok)
 	}
@@ -464,7 +445,7 @@ func oneRun(c *core.Ctx, idx int, r *core.Rand, sigs map[uint64]struct{}, splitP
 	}
 	if !ok {
 		if frozen {
-			c.Violation("C09:transfer:stalled", fmt.Sprintf("receivers got %d of %d segments and made no progress for 5 s after all senders finished", received.Load(), expected), wit())
+			c.Violation("C09:transfer:stalled", fmt.Sprintf("receivers got %d of %d segments and made no progress for 30 s after all senders finished while every library goroutine is parked", received.Load(), expected), wit())
 			c.Count("broken_runs", 1)
 		} else {
 			c.Inconclusive(fmt.Sprintf("run %d: transfer did not finish within the watchdog", idx))
